@@ -187,6 +187,10 @@ fn list_src(xs: &[i64]) -> String {
 pub fn ctx_spec() -> CtxSpec {
     let mut spec = CtxSpec::default_ctx();
     spec.fns.push(("t".into(), FnSpec::Host(vec!["pos-value".into()], Body::First)));
+    // host variables named like the iteration variables the programs use: the macro's binding wins
+    spec.vars.push(("x".into(), cel_interpreter::Value::Int(100)));
+    spec.vars.push(("y".into(), cel_interpreter::Value::Int(200)));
+    spec.vars.push(("k".into(), cel_interpreter::Value::String(std::sync::Arc::new("root".into()))));
     spec
 }
 
@@ -380,6 +384,19 @@ pub fn generate(tier: Tier, rng: &mut Rng) -> Vec<Case> {
                 format!("{o}.map(x, x > 100, x + missing_name)"),
             ] {
                 push_case(&mut out, &spec, src, None, vec!["nested-outer-var"]);
+            }
+        }
+    }
+    // the macros need nothing from the context: against `Context::empty()` (no function registered
+    // at all) every macro over pure bodies computes the same fold
+    {
+        let empty = CtxSpec::default();
+        for l in ["[]", "[1]", "[1, 2, 3]", "[0, 5]", "{1: 2}", "[[1], []]"] {
+            for body in ["all(x, x > 0)", "exists(x, x > 1)", "exists_one(x, x == 1)", "map(x, x + 1)", "map(x, x > 0, x * 2)", "filter(x, x != 1)", "all(x, [x].exists(y, y == x))", "map(x, [x].filter(y, y > 0))"] {
+                if l == "[[1], []]" && !body.starts_with("map(x, [x]") && !body.starts_with("all(x, [x]") {
+                    continue;
+                }
+                push_case(&mut out, &empty, format!("{l}.{body}"), None, vec!["empty-context"]);
             }
         }
     }
